@@ -9,9 +9,11 @@ from mindsdb_sql.parser.ast import *
 
 class ErrorHandling:
 
-    def __init__(self, lexer, parser):
+    def __init__(self, lexer, parser, text=None):
         self.parser = parser
         self.lexer = lexer
+        # the text to show: as it was given (what is tokenized is the text without the ending semicolon and spaces)
+        self.text = text if text is not None else lexer.text
 
     def process(self, error_info):
         self.tokens = [t for t in error_info['tokens'] if t is not None]
@@ -35,7 +37,7 @@ class ErrorHandling:
     def error_location(self):
 
         # show the query text as it was written (token values are rewritten by the lexer)
-        text = self.lexer.text
+        text = self.text
 
         msgs = []
 
@@ -53,6 +55,7 @@ class ErrorHandling:
 
     @staticmethod
     def show_position(text, error_pos, error_len):
+        # the line with the error and up to two lines before it, carets under the error
         msgs = []
         line_start = text.rfind('\n', 0, error_pos) + 1
         line_end = text.find('\n', error_pos)
@@ -62,11 +65,9 @@ class ErrorHandling:
         # a token that spans lines is marked on its first line
         error_len = max(min(error_pos + error_len, line_end) - error_pos, 1)
 
-        # add source code: the line with the error and up to two lines before it
         for line in text[:line_end].split('\n')[-3:]:
             msgs.append('>' + line)
 
-        # error position
         msgs.append('-' * (error_pos - line_start + 1) + '^' * error_len)
         return msgs
 
@@ -84,7 +85,7 @@ class ErrorHandling:
             return []
         for token in self.parser.used_tokens:
             if token is not None and token.index == index:
-                return self.show_position(self.lexer.text, token.index, token.end - token.index)
+                return self.show_position(self.text, token.index, token.end - token.index)
         return []
 
     def make_suggestion(self):
@@ -231,23 +232,26 @@ def get_lexer_parser(dialect):
 
 def parse_sql(sql, dialect='mindsdb'):
     # remove ending semicolon and spaces
+    source = sql
     sql = re.sub(r'[\s;]+$', '', sql)
 
     lexer, parser = get_lexer_parser(dialect)
     parser.text = sql
+    # error messages quote the lines as they were written
+    lexer.source = source
     tokens = lexer.tokenize(sql)
     try:
         ast = parser.parse(tokens)
     except ParsingException as e:
         # rejected by a grammar action: show where (the parsers of the other dialects raise their syntax errors too)
-        location = ErrorHandling(lexer, parser).action_location() if dialect == 'mindsdb' else []
+        location = ErrorHandling(lexer, parser, text=source).action_location() if dialect == 'mindsdb' else []
         if not location:
             raise
         raise ParsingException('\n'.join([str(e)] + location)) from None
 
     if ast is None:
 
-        eh = ErrorHandling(lexer, parser)
+        eh = ErrorHandling(lexer, parser, text=source)
         message = eh.process(parser.error_info)
 
         raise ParsingException(message)
